@@ -251,7 +251,7 @@ Definition fresh_owners (sc : list nscript) (missed : list N) : list N :=
                      | None => []
                      end) missed.
 
-Definition tree_spec (pres : list pre) (pcuts : list ncut) (sc : list nscript) (t0 : Z) (reply : msg) (adm : list nadm) (missed : list N) : bool :=
+Definition tree_spec (route : N) (pres : list pre) (pcuts : list ncut) (sc : list nscript) (t0 : Z) (reply : msg) (mo : option Z) (adm : list nadm) (missed : list N) : bool :=
   let fresh := fresh_owners sc missed in
   (* every record that came out of the cache is inside its piece's lifetime *)
   forallb (fun r =>
@@ -263,6 +263,19 @@ Definition tree_spec (pres : list pre) (pcuts : list ncut) (sc : list nscript) (
                               end
                   | None => true
                   end) (g_an reply)
+  (* the request-tree bound left behind is no later than the end of any cached
+     piece whose records are in the reply (when that bound is observable) *)
+  && ((route =? 4)%N ||
+      forallb (fun r =>
+                 if mem_n (m_owner r) fresh then true
+                 else match find_pre pres (m_owner r) with
+                      | Some p => match pre_end p, mo with
+                                  | Some e, Some b => b <=? e
+                                  | Some e, None => false
+                                  | None, _ => true
+                                  end
+                      | None => true
+                      end) (g_an reply))
   (* a denial synthesised from a subtree cut is inside the cut's lifetime *)
   && match cut_consulted 12 pres pcuts missed (g_an reply) (g_q reply) with
      | Some c =>
@@ -467,8 +480,17 @@ Definition spec_case (c : case) : bool :=
            && match eo with Some e => forallb (fun x => e <=? x) (se :: pcs) | None => false end
   | CCas ops => cas_spec [] ops
   | CPrefetch claimed current cls rrs cut w0 w1 t0 t1 replaced after_id after =>
-      (* a refresh that lost the race leaves the newer entry in place *)
-      if (current =? claimed)%N && negb (current =? 0)%N then true
+      (* a refresh that lost the race leaves the newer entry in place; one that
+         won stores an entry bounded by the refresh's own terms and lease *)
+      if (current =? claimed)%N && negb (current =? 0)%N then
+        (if replaced then
+           match after with
+           | NoEnt => false
+           | Ent s t c _ =>
+               (t <=? spec_ttl cls rrs false 0 w0)
+               && match cut with Some lease => match c with Some c' => c' <=? lease | None => false end | None => true end
+           end
+         else true)
       else negb replaced && (after_id =? current)%N
-  | CTree route pres pcuts sc q t0 t1 wit reply mo adm missed => tree_spec pres pcuts sc t0 reply adm missed
+  | CTree route pres pcuts sc q t0 t1 wit reply mo adm missed => tree_spec route pres pcuts sc t0 reply mo adm missed
   end.
